@@ -872,6 +872,7 @@ int main(int argc, char** argv) {
       shard = static_cast<unsigned>(std::stoul(f.at(0)));
       nshards = static_cast<unsigned>(std::stoul(f.at(1)));
     } else if (a == "--max-exec") max_exec = std::stoull(next());
+    else if (a == "--delay-bounded") g_sched.free_alt_cost = 1;
     else if (a == "--out") out_path = next();
     else if (a == "--progress") progress_path = next();
     else if (a == "--replay") {
